@@ -392,19 +392,21 @@ Definition w_Ultrasonic := [85;108;116;114;97;115;111;110;105;99].
 Definition w_Button := [66;117;116;116;111;110].
 Definition w_Potentiometer := [80;111;116;101;110;116;105;111;109;101;116;101;114].
 
-(* the eight import regexes tested by parse() at top level (RE_IMPORT_LED, _SLEEP, _SERIAL,
-   _TARGET, _CORE, _ULTRASONIC, _BUTTON, _POTENTIOMETER), on stripped text *)
+(* RE_IMPORT_ANY = ^\s*(?:import|from\s+\S+\s+import)\s+[^\s;][^;]*$ on stripped text: what _import_end asks, hence
+   what parse() skips at top level since "fix: reject statements the transpiler cannot translate instead of dropping
+   them" (before: eight patterns for particular Reduino imports).  No `;` after the keyword(s): a second statement
+   cannot hide behind an import.  An import whose parenthesised list of names continues on the following lines is
+   outside the layouts of the theorems (one physical line per statement). *)
+Definition has_semi (t : text) : bool := existsb (fun c => c =? 59) t.
 Definition top_import (t : text) : bool :=
   match split_ws t with
-  | [a; m; b; n] =>
-      text_eqb a w_from && text_eqb b w_import &&
-      ( (text_eqb m w_R_Actuators && text_eqb n w_Led)
-     || (text_eqb m w_R_Utils && text_eqb n w_sleep)
-     || (text_eqb m w_R_Communication && text_eqb n w_SerialMonitor)
-     || (text_eqb m w_Reduino && text_eqb n w_target)
-     || text_eqb m w_R_Core
-     || (text_eqb m w_R_Sensors && (text_eqb n w_Ultrasonic || text_eqb n w_Button || text_eqb n w_Potentiometer)))
-  | a :: m :: b :: _ :: _ => text_eqb a w_from && text_eqb b w_import && text_eqb m w_R_Core
+  | a :: rest =>
+      (text_eqb a w_import && match rest with [] => false | _ => negb (existsb has_semi rest) end)
+      || (text_eqb a w_from &&
+          match rest with
+          | _ :: b :: n :: names => text_eqb b w_import && negb (existsb has_semi (n :: names))
+          | _ => false
+          end)
   | _ => false
   end.
 
